@@ -412,17 +412,25 @@ static int writer_finish_section(struct reftable_writer *w)
 				abort();
 			}
 		}
+		/* The last block of this level. */
+		err = writer_flush_block(w);
+
 		for (i = 0; i < idx_len; i++) {
 			strbuf_release(&idx[i].last_key);
 		}
 		reftable_free(idx);
+		if (err < 0)
+			return err;
+
+		if (w->index_len >= idx_len) {
+			/* Every index entry fills a block of its own, so another
+			   level would not be smaller. The reader scans a
+			   multi-block top level linearly. */
+			break;
+		}
 	}
 
 	writer_clear_index(w);
-
-	err = writer_flush_block(w);
-	if (err < 0)
-		return err;
 
 	bstats = writer_reftable_block_stats(w, typ);
 	bstats->index_blocks = w->stats.idx_stats.blocks - before_blocks;
